@@ -21,6 +21,16 @@
 (*           at top level and nested in a cell                              *)
 (*   image   picture placeholders alone / with text / two in a paragraph /  *)
 (*           in a cell / several in the body / among bookmarks              *)
+(*   media   a base document that already CARRIES one or two pictures whose *)
+(*           parts are named as this library names them (image0..), as other *)
+(*           producers do (image1.., with a gap, out of order, high numbers, *)
+(*           a name without a number), with picture placeholders before /    *)
+(*           after / beside them or with none at all                         *)
+(* Data sets of the seg family are either "xy has a value of class c, z has  *)
+(* W" (+ only one / none present) or PAIRS <<cx, cz>>: each variable absent  *)
+(* ("-") or present with a value of its own class - among them the classes   *)
+(* in which EVERY value present is empty, and values that are not strings    *)
+(* (nil, int, bool, float).                                                  *)
 (* SpecMC checks the reference semantics itself on exactly these cases:     *)
 (* it renders every case with an ideal implementation (IdealDoc) and checks *)
 (* the paragraph-level laws of Subst, that the judge accepts the ideal      *)
@@ -40,7 +50,9 @@ R(cs, f, x) == [cs |-> cs, f |-> f, x |-> x]
 P(runs, ppr) == [k |-> "p", ppr |-> ppr, runs |-> runs]
 Plain(cs) == P(<<R(cs, 0, "")>>, <<>>)
 Tb(rows, full) == [k |-> "tbl", full |-> full, rows |-> rows]
-Desc(body, hdr, ftr, sect, extra) == [body |-> body, hdr |-> hdr, ftr |-> ftr, sect |-> sect, extra |-> extra]
+\* media: the pictures the base document already carries, [num, name, tok] each (picture i is shown by the
+\* runs with x = "drawing" (i = 1) / "drawing2" (i = 2)); <<>> = named the way the library names them
+Desc(body, hdr, ftr, sect, extra) == [body |-> body, hdr |-> hdr, ftr |-> ftr, sect |-> sect, extra |-> extra, media |-> <<>>]
 
 \* "CJK" is a multi-byte character (byte offsets and character offsets differ after it)
 T0 == <<"a","{","{","x","y","}","}","CJK","{","{","z","}","}","c">>
@@ -103,7 +115,16 @@ Val(c) == CASE c = "plain" -> <<"V","1">>
             [] c = "ctrl" -> <<"p","CTL","q">>
             [] c = "braces" -> <<"{","{","z","}","}">>
             [] c = "dollar" -> <<"$","1","$","{","0","}">>
-Pair(n, v) == [n |-> n, v |-> v]
+            \* values that are not strings: v is the text they stand for
+            [] c = "nil" -> <<>>
+            [] c = "int" -> <<"4","2">>
+            [] c = "neg" -> <<"-","7">>
+            [] c = "bool" -> <<"t","r","u","e">>
+            [] c = "float" -> <<"2",".","5">>
+TyCls == {"nil", "int", "neg", "bool", "float"}
+Ty(c) == IF c = "neg" THEN "int" ELSE IF c \in TyCls THEN c ELSE "str"
+PairT(n, v, ty) == [n |-> n, v |-> v, ty |-> ty]
+Pair(n, v) == PairT(n, v, "str")
 ItList == <<[n |-> Nit, items |-> << <<Pair(<<"n">>, <<"Q">>)>> >>]>>
 Data(cls, vs, ls, is) == [cls |-> cls, vars |-> vs, lists |-> ls, imgs |-> is]
 SegData(classes, pres) ==
@@ -112,11 +133,25 @@ SegData(classes, pres) ==
                       Data("partial", <<Pair(Nz, <<"W">>)>>, ItList, <<>>),
                       Data("absent", <<>>, ItList, <<>>)}
         ELSE {})
-ExtrasData == {Data("plain", <<Pair(Nxy, <<"V","1">>), Pair(Nz, <<"W">>)>>, ItList, <<>>), Data("absent", <<>>, ItList, <<>>)}
+\* a pair <<cx, cz>>: xy / z absent ("-") or present with a value of class cx / cz
+PairVar(n, c) == IF c = "-" THEN <<>> ELSE <<PairT(n, Val(c), Ty(c))>>
+PairData(S) == {Data(q[1] \o "+" \o q[2], PairVar(Nxy, q[1]) \o PairVar(Nz, q[2]), ItList, <<>>) : q \in S}
+\* every value that is present is empty / some are / none is a string
+EmptyPairs == {<<"empty","empty">>, <<"empty","-">>, <<"-","empty">>, <<"nil","nil">>, <<"nil","-">>, <<"-","nil">>}
+MixedPairs == {<<"empty","plain">>, <<"plain","empty">>, <<"nil","plain">>, <<"xmlmeta","empty">>}
+TypedPairs == {<<"int","bool">>, <<"float","neg">>, <<"bool","-">>, <<"-","int">>}
+ExtrasData(pairs) == (IF pairs = {} THEN {Data("plain", <<Pair(Nxy, <<"V","1">>), Pair(Nz, <<"W">>)>>, ItList, <<>>), Data("absent", <<>>, ItList, <<>>)} ELSE {})
+                     \cup PairData(pairs)
 Digit(k) == <<"0","1","2","3","4","5","6","7","8","9">>[k + 1]
 LoopData(maxItems) == {Data("loop", <<Pair(Nz, <<"W">>)>>,
                   <<[n |-> Nit, items |-> [k \in 1..n |-> <<Pair(<<"n">>, <<"N", Digit(k)>>), Pair(<<"a">>, <<"A", Digit(k)>>)>>]]>>,
                   <<>>) : n \in 0..maxItems}
+  \* items whose values are empty / not strings
+  \* (class "loop" like the others: what a witness names is the kind of data, not the values)
+  \cup {Data("loop", <<Pair(Nz, <<>>)>>,
+           <<[n |-> Nit, items |-> << <<PairT(<<"n">>, Val(c[1]), Ty(c[1])), PairT(<<"a">>, Val(c[2]), Ty(c[2]))>>,
+                                      <<Pair(<<"n">>, <<"N","2">>), Pair(<<"a">>, <<"A","2">>)>> >>]>>,
+           <<>>) : c \in IF maxItems >= 2 THEN {<<"empty","empty">>, <<"empty","plain">>, <<"nil","int">>, <<"bool","empty">>} ELSE {}}
 ImageData == {Data("image", <<Pair(Nz, <<"W">>)>>, <<>>, <<[n |-> <<"p">>, img |-> "img1"], [n |-> <<"q">>, img |-> "img2"]>>)}
 
 \* ---- families ----------------------------------------------------------------------------------
@@ -167,16 +202,46 @@ ImageBodies ==
     <<Bm, Plain(<<"T"," ">> \o ImgP \o <<" ","U">>), Bm, Plain(ImgQ), Plain(<<"e">>)>> }          \* with bookmarks in between
 ImageBases == {Desc(b, <<>>, <<>>, "plain", FALSE) : b \in ImageBodies}
 
+\* ---- a base that already carries pictures -----------------------------------------------------------
+\* num = the number in the name of the media part (-1: a name that carries no number)
+Med(num, tok) == [num |-> num, tok |-> tok,
+                  name |-> IF num < 0 THEN "logo_" \o tok \o ".png" ELSE "image" \o ToString(num) \o ".png"]
+MediaNums(nm) == CASE nm = "lib0" -> <<0, 1>>      \* as this library numbers them
+                   [] nm = "from1" -> <<1, 2>>     \* as most producers do
+                   [] nm = "gap" -> <<1, 3>>
+                   [] nm = "rev" -> <<2, 1>>       \* order of the relationships is not the order of the numbers
+                   [] nm = "high" -> <<7, 9>>
+                   [] nm = "alien" -> <<-1, 1>>
+MediaNamings == {"lib0", "from1", "gap", "rev", "high", "alien"}
+MediaOf(nm, n) == [i \in 1..n |-> Med(MediaNums(nm)[i], <<"img9", "img8">>[i])]
+LibNamed(m) == \A i \in 1..Len(m) : m[i].num = i - 1
+PicPara(n) == IF n = 1 THEN P(<<R(<<>>, 0, "drawing")>>, <<>>)
+              ELSE P(<<R(<<"l">>, 1, "drawing"), R(<<"x">>, 2, ""), R(<<>>, 0, "drawing2")>>, <<"jc">>)
+MediaBodies(n) ==
+  { <<Plain(<<"s">>), PicPara(n), Plain(ImgP), Plain(<<"e">>)>>,                                        \* placeholder after the pictures
+    <<Plain(ImgP), PicPara(n), Plain(<<"e">> \o TkVar(Nz))>>,                                           \* ... before them
+    <<Plain(<<"T"," ">> \o ImgP \o <<" ","U">>), PicPara(n), Plain(ImgQ)>>,                             \* two placeholders around them, one with text
+    <<PicPara(n), Tb(<< << <<Plain(ImgP)>>, <<Plain(<<"m">>)>> >> >>, FALSE), Plain(ImgP \o <<"M">> \o ImgQ)>>,   \* in a cell + the same picture again
+    <<PicPara(n), Plain(<<"e">> \o TkVar(Nz))>> }                                                       \* no picture placeholder at all
+MediaBases(p) == UNION {{[Desc(b, <<>>, <<>>, "plain", FALSE) EXCEPT !.media = MediaOf(nm, n)] : b \in MediaBodies(n), nm \in p.nm} : n \in 1..p.items}
+
 \* ---- plans ------------------------------------------------------------------------------------------
 \* a plan = [fam, lo, hi (number of cuts), fm (formatting modes), pl (placements), vias, cls (value classes),
-\*           pres (also the partial / absent data sets), items (loop: 0..items)]
+\*           pres (also the partial / absent data sets), items (loop: 0..items; media: 1..items pictures),
+\*           pairs (seg: data sets given as pairs <<class of xy, class of z>>), nm (media: namings of the parts)]
 AllPl == {"body", "cell", "nested", "loopother", "header", "footer", "bodyhf"}
 Texts == {"T0", "T1", "T2", "T3"}
 AllCls == {"plain", "empty", "xmlmeta", "ctrl", "braces", "dollar"}
 Plan(fam, lo, hi, fm, pl, vias, cls, pres, items) ==
-  [fam |-> fam, txt |-> {"T0"}, lo |-> lo, hi |-> hi, fm |-> fm, pl |-> pl, vias |-> vias, cls |-> cls, pres |-> pres, items |-> items]
+  [fam |-> fam, txt |-> {"T0"}, lo |-> lo, hi |-> hi, fm |-> fm, pl |-> pl, vias |-> vias, cls |-> cls, pres |-> pres, items |-> items,
+   pairs |-> {}, nm |-> {}]
 Seg(lo, hi, fm, pl, vias, cls, pres) == Plan("seg", lo, hi, fm, pl, vias, cls, pres, 0)
 SegT(txt, lo, hi, fm, pl, vias, cls, pres) == [Seg(lo, hi, fm, pl, vias, cls, pres) EXCEPT !.txt = txt]
+\* data sets given as pairs only
+SegP(txt, lo, hi, fm, pl, vias, pairs) == [Seg(lo, hi, fm, pl, vias, {}, FALSE) EXCEPT !.txt = txt, !.pairs = pairs]
+\* non-text runs / paragraph properties in paragraphs whose values are given as pairs
+ExtrasP(pl, vias, pairs) == [Plan("extras", 0, 0, {"distinct"}, pl, vias, {}, FALSE, 0) EXCEPT !.pairs = pairs]
+Media(vias, nm, n) == [Plan("media", 0, 0, {"distinct"}, {"body"}, vias, {"plain"}, TRUE, n) EXCEPT !.nm = nm]
 Others(vias, items, pl) == {Plan("extras", 0, 0, {"distinct"}, pl, vias, {"plain"}, TRUE, 0),
                         Plan("loop", 0, 0, {"distinct"}, {"body"}, vias, {"plain"}, TRUE, items),
                         Plan("image", 0, 0, {"distinct"}, {"body"}, vias, {"plain"}, TRUE, 0)}
@@ -190,7 +255,15 @@ PlanQuick ==
     SegT(Texts \ {"T0"}, 0, 2, {"distinct"}, {"body"}, {"doc"}, {"plain"}, TRUE),             \* the other texts
     SegT(Texts \ {"T0"}, 0, 2, {"distinct"}, {"header"}, {"doc"}, {"plain"}, FALSE),
     SegT(Texts \ {"T0"}, 0, 1, {"distinct"}, AllPl, {"doc"}, {"plain", "braces"}, FALSE),
-    Seg(0, 1, {"distinct"}, AllPl, {"open", "file"}, {"plain"}, FALSE) }      \* the other ways to make a template
+    Seg(0, 1, {"distinct"}, AllPl, {"open", "file"}, {"plain"}, FALSE),       \* the other ways to make a template
+    SegP({"T0"}, 0, 0, {"distinct"}, AllPl, {"doc"}, EmptyPairs),             \* every value present is empty: everywhere
+    SegP({"T0"}, 1, 1, {"distinct"}, {"body", "cell", "loopother", "header"}, {"doc"}, EmptyPairs),
+    SegP({"T0"}, 2, 2, {"distinct"}, {"body"}, {"doc"}, {<<"empty","-">>}),
+    SegP({"T0"}, 0, 1, {"distinct"}, {"body", "header"}, {"doc"}, MixedPairs),
+    SegP({"T0"}, 0, 0, {"distinct"}, AllPl, {"doc", "file"}, TypedPairs),     \* values that are not strings
+    SegP({"T1", "T2"}, 0, 1, {"distinct"}, {"body", "footer"}, {"doc"}, {<<"empty","empty">>, <<"nil","-">>, <<"-","empty">>, <<"int","bool">>}),
+    ExtrasP({"body", "cell"}, {"doc"}, {<<"empty","empty">>}),                \* ... beside non-text runs
+    Media({"doc", "open", "file"}, MediaNamings, 2) }
   \cup Others({"doc", "file"}, 3, AllPl)
 PlanThorough ==
   { Seg(0, 3, {"distinct"}, AllPl, {"doc"}, {"plain"}, FALSE),                                 \* all 378 segmentations, everywhere
@@ -203,30 +276,50 @@ PlanThorough ==
     SegT(Texts \ {"T0"}, 0, 2, {"distinct"}, {"cell", "header", "bodyhf"}, {"doc"}, {"plain"}, FALSE),
     SegT(Texts \ {"T0"}, 0, 1, {"distinct"}, AllPl, {"doc"}, AllCls \ {"plain"}, FALSE),
     Seg(0, 1, {"distinct"}, AllPl, {"open", "file"}, {"plain", "xmlmeta"}, TRUE),
-    Seg(2, 2, {"distinct"}, {"body", "header"}, {"open", "file"}, {"plain"}, FALSE) }
+    Seg(2, 2, {"distinct"}, {"body", "header"}, {"open", "file"}, {"plain"}, FALSE),
+    SegP({"T0"}, 0, 2, {"distinct"}, AllPl, {"doc"}, EmptyPairs \cup MixedPairs),
+    SegP({"T0"}, 3, 3, {"distinct"}, {"body"}, {"doc"}, {<<"empty","-">>, <<"-","empty">>, <<"nil","nil">>}),
+    SegP({"T0"}, 0, 1, {"distinct", "same", "none"}, AllPl, {"doc", "open", "file"}, TypedPairs \cup {<<"empty","empty">>, <<"nil","-">>}),
+    SegP(Texts \ {"T0"}, 0, 1, {"distinct"}, AllPl, {"doc"}, EmptyPairs \cup {<<"int","bool">>, <<"empty","plain">>}),
+    SegP(Texts \ {"T0"}, 2, 2, {"distinct"}, {"body", "header"}, {"doc"}, EmptyPairs),
+    ExtrasP(AllPl, {"doc", "file"}, {<<"empty","empty">>, <<"nil","-">>, <<"int","bool">>}),
+    Media({"doc", "open", "file"}, MediaNamings, 2) }
   \cup Others({"doc", "open", "file"}, 3, AllPl)
 PlanSim ==
-  { SegT(Texts, 1, 1, {"distinct"}, AllPl, {"doc", "open"}, AllCls, TRUE) } \cup Others({"doc"}, 3, {"body", "cell", "header"})
+  { SegT(Texts, 1, 1, {"distinct"}, AllPl, {"doc", "open"}, AllCls, TRUE),
+    SegP(Texts, 0, 1, {"distinct"}, AllPl, {"doc", "open"}, EmptyPairs \cup MixedPairs \cup TypedPairs),
+    Media({"doc", "open"}, MediaNamings, 2) } \cup Others({"doc"}, 3, {"body", "cell", "header"})
 PlanMCQuick ==
   { Seg(0, 1, {"distinct"}, {"body", "nested", "loopother", "header"}, {"doc"}, {"plain", "braces"}, TRUE),
-    SegT({"T1", "T3"}, 0, 1, {"distinct"}, {"body"}, {"doc"}, {"plain"}, TRUE) } \cup Others({"doc"}, 2, {"body"})
+    SegT({"T1", "T3"}, 0, 1, {"distinct"}, {"body"}, {"doc"}, {"plain"}, TRUE),
+    SegP({"T0", "T2"}, 0, 1, {"distinct"}, {"body", "header"}, {"doc"}, {<<"empty","empty">>, <<"nil","-">>, <<"-","empty">>, <<"int","bool">>}),
+    ExtrasP({"body"}, {"doc"}, {<<"empty","empty">>}),
+    Media({"doc"}, {"lib0", "from1", "alien"}, 2) } \cup Others({"doc"}, 2, {"body"})
 PlanMCThorough ==
   { Seg(0, 2, {"distinct"}, AllPl, {"doc"}, AllCls, TRUE),
-    SegT(Texts \ {"T0"}, 0, 1, {"distinct"}, AllPl, {"doc"}, {"plain", "braces", "empty"}, TRUE) } \cup Others({"doc"}, 3, AllPl)
+    SegT(Texts \ {"T0"}, 0, 1, {"distinct"}, AllPl, {"doc"}, {"plain", "braces", "empty"}, TRUE),
+    SegP(Texts, 0, 1, {"distinct"}, AllPl, {"doc"}, EmptyPairs \cup MixedPairs \cup TypedPairs),
+    ExtrasP(AllPl, {"doc"}, {<<"empty","empty">>, <<"nil","-">>, <<"int","bool">>}),
+    Media({"doc"}, MediaNamings, 2) } \cup Others({"doc"}, 3, AllPl)
 
 BasesOf(p) == CASE p.fam = "seg" -> SegBases(p) [] p.fam = "extras" -> ExtrasBases(p) [] p.fam = "loop" -> LoopBases [] p.fam = "image" -> ImageBases
-DataOf(p) == CASE p.fam = "seg" -> SegData(p.cls, p.pres) [] p.fam = "extras" -> ExtrasData [] p.fam = "loop" -> LoopData(p.items) [] p.fam = "image" -> ImageData
+                [] p.fam = "media" -> MediaBases(p)
+DataOf(p) == CASE p.fam = "seg" -> SegData(p.cls, p.pres) \cup PairData(p.pairs) [] p.fam = "extras" -> ExtrasData(p.pairs) [] p.fam = "loop" -> LoopData(p.items)
+               [] p.fam = "image" -> ImageData [] p.fam = "media" -> ImageData
 
 \* OpenFromMemory / Open do not read nested tables (a matter of C03): such bases are only built directly
 HasNested(d) == \E b \in RangeOf(d.body) : b.k = "tbl" /\ \E row \in RangeOf(b.rows) : \E c \in RangeOf(row) : \E x \in RangeOf(c) : x.k = "tbl"
 BuildsOf(p) == {x \in {[op |-> "Build", fam |-> p.fam, plan |-> p, base |-> b, via |-> v] : b \in BasesOf(p), v \in p.vias} :
-                  x.via = "doc" \/ ~HasNested(x.base)}
+                  \* parts named otherwise than the library names them only exist in packages that are opened
+                  /\ (x.via = "doc" \/ ~HasNested(x.base))
+                  /\ (x.via = "doc" => LibNamed(x.base.media))}
 BuildOps == UNION {BuildsOf(p) : p \in Plans}
 RenderOps(b) == {[op |-> "Render", data |-> d] : d \in DataOf(b.plan)}
 
 \* ---- abstraction of a description (what the independent reader sees of it) -------------------
 XAtom(x, f, r) == CASE x = "br" -> <<[k |-> "br", t |-> "br:page", f |-> f, r |-> r]>>
                     [] x = "drawing" -> <<[k |-> "drawing", t |-> "img9", f |-> f, r |-> r]>>
+                    [] x = "drawing2" -> <<[k |-> "drawing", t |-> "img8", f |-> f, r |-> r]>>
                     [] x = "fldB" -> <<[k |-> "fldChar", t |-> "fldChar:begin", f |-> f, r |-> r]>>
                     [] x = "fldI" -> <<[k |-> "instrText", t |-> "instrText:PAGE", f |-> f, r |-> r]>>
                     [] x = "fldE" -> <<[k |-> "fldChar", t |-> "fldChar:end", f |-> f, r |-> r]>>
@@ -253,7 +346,8 @@ AbsHF(runs, kind) == IF runs = <<>> THEN <<>>
                              blocks |-> <<[k |-> "p", ppr |-> <<>>, atoms |-> RunAtoms(runs)]>>]>>
 AbsDoc(d) == [body |-> AbsBlocks(d.body), sect |-> <<[n |-> "sect", v |-> d.sect]>>,
               hf |-> AbsHF(d.ftr, "footer") \o AbsHF(d.hdr, "header"),
-              parts |-> IF d.extra THEN <<[n |-> "extra", c |-> "custom", v |-> "h"]>> ELSE <<>>]
+              parts |-> (IF d.extra THEN <<[n |-> "extra", c |-> "custom", v |-> "h"]>> ELSE <<>>)
+                        \o [i \in 1..Len(d.media) |-> [n |-> "word/media/" \o d.media[i].name, c |-> "media", v |-> d.media[i].tok]]]
 
 \* ---- an ideal implementation: materialises the reference semantics ---------------------------------
 Pick(fs) == IF fs = {} THEN 0 ELSE MinOfSet(fs)
@@ -272,10 +366,23 @@ IdealTable(t, d, form) ==
                cells |-> [j \in 1..Len(Rw[i].src.cells) |->
                             [tcpr |-> Rw[i].src.cells[j].tcpr,
                              blocks |-> IdealBlocks(Rw[i].src.cells[j].blocks, Rw[i].d, Rw[i].strip, form)]]]]]
+RECURSIVE AllParas(_)
+AllParas(bs) == CatMap(bs, LAMBDA b : IF b.k = "p" THEN <<b>>
+                                      ELSE IF b.k = "tbl" THEN CatMap(b.rows, LAMBDA row : CatMap(row.cells, LAMBDA c : AllParas(c.blocks)))
+                                      ELSE <<>>)
+RECURSIVE AllTables(_)
+AllTables(bs) == CatMap(bs, LAMBDA b : IF b.k = "tbl" THEN <<b>> \o CatMap(b.rows, LAMBDA row : CatMap(row.cells, LAMBDA c : AllTables(c.blocks)))
+                                       ELSE <<>>)
+\* the pictures rendering inserts (in the generated families picture placeholders only occur outside loop rows)
+Inserted(base, d) == CatMap(AllParas(base.body), LAMBDA p : SelectSeq(SubstAtoms(p.atoms, d.vars, d.imgs, FALSE), LAMBDA a : a.img))
+\* ... are stored in parts of their own, under names no part of the base has; every part of the base stays
 IdealDoc(base, d, form) ==
   [body |-> IdealBlocks(base.body, d, FALSE, form), sect |-> base.sect,
    hf |-> [i \in 1..Len(base.hf) |-> [base.hf[i] EXCEPT !.blocks = IdealBlocks(@, HfData(d), FALSE, "inline")]],
-   parts |-> base.parts]
+   parts |-> base.parts \o [i \in 1..Len(Inserted(base, d)) |->
+                              [n |-> "word/media/new" \o ToString(i) \o ".bin", c |-> "media", v |-> Inserted(base, d)[i].t]]]
+\* a rendering that stores an inserted picture under the name of part x of the base (and so replaces its bytes)
+Overwrite(out, x) == [out EXCEPT !.parts = [i \in 1..Len(@) |-> IF @[i] = x THEN [x EXCEPT !.v = "imgX"] ELSE @[i]]]
 Forms == {"inline", "split"}
 
 \* ---- the machines ------------------------------------------------------------------------------------
@@ -305,13 +412,6 @@ SpecGen == Init /\ [][NextGen]_vars
 Emit == Len(hist) < Depth \/ PrintT(<<"WZCASE", ToJson(hist)>>)
 
 \* ---- properties of the reference semantics (C18 at design level) ---------------------------------------
-RECURSIVE AllParas(_)
-AllParas(bs) == CatMap(bs, LAMBDA b : IF b.k = "p" THEN <<b>>
-                                      ELSE IF b.k = "tbl" THEN CatMap(b.rows, LAMBDA row : CatMap(row.cells, LAMBDA c : AllParas(c.blocks)))
-                                      ELSE <<>>)
-RECURSIVE AllTables(_)
-AllTables(bs) == CatMap(bs, LAMBDA b : IF b.k = "tbl" THEN <<b>> \o CatMap(b.rows, LAMBDA row : CatMap(row.cells, LAMBDA c : AllTables(c.blocks)))
-                                       ELSE <<>>)
 DocParas(doc) == AllParas(doc.body) \o CatMap(doc.hf, LAMBDA h : AllParas(h.blocks))
 Rendered == st.phase = "rendered"
 
@@ -371,6 +471,13 @@ SomethingToDo(doc, d) ==
   \/ \E p \in RangeOf(AllParas(doc.body)) : HasImg(p.atoms, d.imgs)
   \/ \E t \in RangeOf(AllTables(doc.body)) : LoopRow(t) > 0
 Inv_JudgeSharp == Rendered => (JudgeDoc(st.base, st.base, st.d) # {} <=> SomethingToDo(st.base, st.d))
+
+\* ... nor blind to the other parts: a rendering that replaces the bytes of any media part of the base is rejected
+Inv_PartsSharp == Rendered => \A x \in RangeOf(st.base.parts) :
+                    x.c = "media" => <<"part-changed", "media">> \in JudgeDoc(st.base, Overwrite(st.out, x), st.d)
+\* the ideal rendering keeps every part of the base and never stores a picture under a name the base uses
+Inv_PartsKept == Rendered => /\ RangeOf(st.base.parts) \subseteq RangeOf(st.out.parts)
+                             /\ Cardinality(NamesOf(RangeOf(st.out.parts))) = Len(st.out.parts)
 
 \* rendering is a function of (base, data): the base is untouched and the history is irrelevant
 Act_Pure == [][st'.phase = "rendered" =>
